@@ -112,6 +112,8 @@ func genesisState(k int) *State {
 	rc := nd.TimeRange("rc1", TLo, THi)
 	nd.Assume(!rc.Before(st.T0))
 	InstallRedelegation(e, 0, 0, 1, 0, nd.IntRange("r1", "1", Pow30), rc)
+	// a second delegator's redelegation of the same block: same queue slot, its own record
+	InstallRedelegation(e, 1, 0, 1, 0, nd.IntRange("r3", "1", Pow30), rc)
 	if k == 1 {
 		InstallRedelegation(e, 0, 2, 1, 0, nd.IntRange("r2", "1", Pow30), rc)
 		nd.Tag("merged-redelegation")
